@@ -120,16 +120,19 @@ func specPacked6Char(b []byte, k int) uint8 {
 
 //@ func parseAnalogDataFormatUnsigned
 //@ props C20 C15
+//@ inline
 //@ assigns nothing
 //@ ensures [C20.analog-unsigned] int(result) == int(r)
 
 //@ func parseAnalogDataFormatOnesComplement
 //@ props C20 C15
+//@ inline
 //@ assigns nothing
 //@ ensures [C20.analog-ones] int(result) == ite(r < 0x80, int(r), -int(^r))
 
 //@ func parseAnalogDataFormatTwosComplement
 //@ props C20 C15
+//@ inline
 //@ assigns nothing
 //@ ensures [C20.analog-twos] int(result) == ite(r < 0x80, int(r), int(r)-256)
 
@@ -145,3 +148,76 @@ func specPacked6Char(b []byte, k int) uint8 {
 //@ props C20
 //@ assigns nothing
 //@ ensures [C20.entity-device] result == (0x60 <= i && i <= 0x7f)
+
+// ---- conversion_factors.go / linearisation.go / analog_data_format.go (IPMI v2.0 36.3, table 43-1)
+
+//@ func (*ConversionFactors).ConvertReading
+//@ props C15
+//@ assigns nothing
+//@ ensures [C15.formula] result == (float64(int64(f.M)*int64(raw))+float64(f.B)*math.Pow10(int(f.BExp)))*math.Pow10(int(f.RExp))
+//@ ensures [C15.product-exact] int64(f.M)*int64(raw) <= 1<<30 && int64(f.M)*int64(raw) >= -(1<<30) // M*x is computed without overflow and converts to float64 exactly
+
+//@ func Linearisation.IsLinear
+//@ props C15
+//@ assigns nothing
+//@ ensures [C15.islinear] result == (l == 0)
+
+//@ func Linearisation.IsLinearised
+//@ props C15
+//@ assigns nothing
+//@ ensures [C15.islinearised] result == (1 <= l && l <= 11)
+
+//@ func Linearisation.IsNonLinear
+//@ props C15
+//@ assigns nothing
+//@ ensures [C15.isnonlinear] result == (l >= 12)
+//@ ensures [C15.partition] (ite(l.IsLinear(), 1, 0)+ite(l.IsLinearised(), 1, 0)+ite(result, 1, 0)) == 1
+
+//@ func Linearisation.Lineariser
+//@ props C15
+//@ assigns nothing
+//@ ensures [C15.lineariser-domain] (result1 == nil) == (1 <= l && l <= 11) && (result1 == nil ==> !isnil(result0))
+//@ ensures [C15.lineariser-ln] result1 == nil && l == 1 ==> holdsFunc(result0, "math.Log")
+//@ ensures [C15.lineariser-log10] result1 == nil && l == 2 ==> holdsFunc(result0, "math.Log10")
+//@ ensures [C15.lineariser-log2] result1 == nil && l == 3 ==> holdsFunc(result0, "math.Log2")
+//@ ensures [C15.lineariser-e] result1 == nil && l == 4 ==> holdsFunc(result0, "math.Exp")
+//@ ensures [C15.lineariser-exp10] result1 == nil && l == 5 ==> holdsFunc(result0, "github.com/gebn/bmc/pkg/ipmi.init@linearisation.go#1")
+//@ ensures [C15.lineariser-exp2] result1 == nil && l == 6 ==> holdsFunc(result0, "math.Exp2")
+//@ ensures [C15.lineariser-inverse] result1 == nil && l == 7 ==> holdsFunc(result0, "github.com/gebn/bmc/pkg/ipmi.init@linearisation.go#2")
+//@ ensures [C15.lineariser-sqr] result1 == nil && l == 8 ==> holdsFunc(result0, "github.com/gebn/bmc/pkg/ipmi.init@linearisation.go#3")
+//@ ensures [C15.lineariser-cube] result1 == nil && l == 9 ==> holdsFunc(result0, "github.com/gebn/bmc/pkg/ipmi.init@linearisation.go#4")
+//@ ensures [C15.lineariser-sqrt] result1 == nil && l == 10 ==> holdsFunc(result0, "math.Sqrt")
+//@ ensures [C15.lineariser-cubert] result1 == nil && l == 11 ==> holdsFunc(result0, "github.com/gebn/bmc/pkg/ipmi.init@linearisation.go#5")
+
+//@ func init@linearisation.go#1
+//@ props C15
+//@ assigns nothing
+//@ ensures [C15.exp10] result == math.Pow(10, f)
+
+//@ func init@linearisation.go#2
+//@ props C15
+//@ assigns nothing
+//@ ensures [C15.inverse] result == math.Pow(f, -1)
+
+//@ func init@linearisation.go#3
+//@ props C15
+//@ assigns nothing
+//@ ensures [C15.sqr] result == math.Pow(f, 2)
+
+//@ func init@linearisation.go#4
+//@ props C15
+//@ assigns nothing
+//@ ensures [C15.cube] result == math.Pow(f, 3)
+
+//@ func init@linearisation.go#5
+//@ props C15
+//@ assigns nothing
+//@ ensures [C15.cubert] result == math.Pow(f, 1./3)
+
+//@ func AnalogDataFormat.Parser
+//@ props C15
+//@ assigns nothing
+//@ ensures [C15.parser-domain] (result1 == nil) == (f <= 2) && (result1 == nil ==> !isnil(result0))
+//@ ensures [C15.parser-unsigned] result1 == nil && f == 0 ==> holdsFunc(result0, "github.com/gebn/bmc/pkg/ipmi.parseAnalogDataFormatUnsigned")
+//@ ensures [C15.parser-ones] result1 == nil && f == 1 ==> holdsFunc(result0, "github.com/gebn/bmc/pkg/ipmi.parseAnalogDataFormatOnesComplement")
+//@ ensures [C15.parser-twos] result1 == nil && f == 2 ==> holdsFunc(result0, "github.com/gebn/bmc/pkg/ipmi.parseAnalogDataFormatTwosComplement")
